@@ -21,7 +21,7 @@ import (
 
 func init() {
 	vf.Register(&vf.CheckDef{ID: "C20", Level: "model_checking", Run: run,
-		Workers: map[string]vf.WorkerFunc{"hist": histWorker, "real": realWorker, "split": splitWorker, "race": raceWorker}})
+		Workers: map[string]vf.WorkerFunc{"hist": histWorker, "real": realWorker, "split": splitWorker, "race": raceWorker, "sched": schedWorker}})
 }
 
 // ---------------------------------------------------------------- formats: independent single-document parsers
@@ -789,6 +789,11 @@ func run(c *vf.Ctx) {
 	}
 	c.RunPool(vf.PoolSpec{Worker: "real", Shards: 32, StallSecs: 900})
 	c.RunPool(vf.PoolSpec{Worker: "split", Shards: 32, StallSecs: 900})
+	c.RunPool(vf.PoolSpec{Worker: "sched", Sched: true, Shards: len(schedCases(c.Quick())), StallSecs: 600,
+		CrashKey: func(idx uint64, label, kind, tail string) (string, string) {
+			return "fanout-sched-crash:" + label, fmt.Sprintf("worker %s while exploring the schedules of %s: %s", kind, label, trunc(tail, 600))
+		}})
+	c.Assume("fan-out under the scheduler: histories of 2-4 records over 2-3 targets through tee >, emit >, print >, split -g (also passing on into head -n 1) x 4 formats x batch sizes 1 and 2; ALL schedules; the maps of open handlers are iterated in sorted key order in the sched build (tools/vinstr sortedRangeSites) so that the close order is a choice the scheduler owns")
 	if rb := os.Getenv("VERIF_BIN_RACE"); rb != "" {
 		rdir, _ := os.MkdirTemp("/dev/shm", "verif-c20racelog-")
 		c.RunPool(vf.PoolSpec{Worker: "race", Bin: rb, Shards: 16, StallSecs: 900, Env: vf.RaceEnv(rdir)})
